@@ -229,7 +229,7 @@ func (s sreq) build() *http.Request {
 	case s.body == "nobody":
 		r.Body = http.NoBody
 	default:
-		r.Body = io.NopCloser(strings.NewReader(s.body[1:]))
+		r.Body = shortReads([]byte(s.body[1:]))
 		r.ContentLength = int64(len(s.body) - 1)
 	}
 	return r.WithContext(context.Background())
@@ -424,7 +424,7 @@ func overWire(req *http.Request) (*http.Request, error) {
 	if len(data) == 0 {
 		sr.Body = http.NoBody
 	} else {
-		sr.Body = io.NopCloser(bytes.NewReader(data))
+		sr.Body = shortReads(data)
 	}
 	return sr, nil
 }
@@ -467,7 +467,7 @@ func realTunReq(threshold int, path string, query *string, httpMethod, restliMet
 		if len(data) == 0 {
 			sr.Body = http.NoBody
 		} else {
-			sr.Body = io.NopCloser(bytes.NewReader(data))
+			sr.Body = shortReads(data)
 		}
 		out = "ok " + renderReq(sr)
 	})
@@ -475,4 +475,43 @@ func realTunReq(threshold int, path string, query *string, httpMethod, restliMet
 		return fmt.Sprintf("panic %v", v)
 	}
 	return out
+}
+
+// shortReads: a request body as a connection delivers it — in pieces, each Read returning what has
+// arrived rather than what was asked for. The piece size varies with the content (1 byte, a few
+// bytes, half, everything), deterministically, so that code that assumes one Read fills its buffer
+// is met with the same input on every run.
+type chunkedBody struct {
+	data []byte
+	step int
+}
+
+func (c *chunkedBody) Read(p []byte) (int, error) {
+	if len(c.data) == 0 {
+		return 0, io.EOF
+	}
+	n := c.step
+	if n > len(p) {
+		n = len(p)
+	}
+	if n > len(c.data) {
+		n = len(c.data)
+	}
+	copy(p, c.data[:n])
+	c.data = c.data[n:]
+	return n, nil
+}
+
+func (c *chunkedBody) Close() error { return nil }
+
+func shortReads(data []byte) io.ReadCloser {
+	steps := []int{1, 3, 64, len(data)/2 + 1, len(data) + 1}
+	h := len(data) * 7
+	for _, b := range data {
+		h = h*31 + int(b)
+	}
+	if h < 0 {
+		h = -h
+	}
+	return &chunkedBody{data: append([]byte(nil), data...), step: steps[h%len(steps)]}
 }
